@@ -240,12 +240,16 @@ const TEMPLATES: &[(&str, &str)] = &[
     // pattern with a literal replacement and with one that uses groups
     ("rxmask.html", "{{ email | regex_replace(pattern=pat, rep=\"<hidden>\") }}"),
     ("rxswap.html", "{{ email | regex_replace(pattern=pat, rep=\"$2 at $1\") }}{{ email is matching(pat=pat) }}"),
+    // the seeded variants of tera-contrib's random helpers are reproducible by documentation
+    ("rand.html", "{{ get_random(start=0, end=1000000, seed=\"s\") }}|{{ xs | shuffle(seed=\"s\") }}|{{ get_random(start=0, end=1000000, seed=a) }}"),
 ];
 
 fn build_tera() -> Tera {
     let mut t = Tera::default();
     t.register_filter("regex_replace", tera_contrib::regex::RegexReplace::default());
     t.register_test("matching", tera_contrib::regex::Matching::default());
+    t.register_function("get_random", tera_contrib::rand::get_random);
+    t.register_filter("shuffle", tera_contrib::rand::shuffle);
     t.add_raw_templates(TEMPLATES.iter().copied()).expect("harness templates must load");
     t
 }
@@ -359,6 +363,7 @@ fn groups() -> Vec<(&'static str, &'static str, Vec<Action>)> {
         ("same-ctx", "same template AND same context object on both threads", vec![act(Render("esc3.html"), 0), act(Render("esc3.html"), 0)]),
         ("plain", "unescaped writes of shared values", vec![act(Render("plain.txt"), 0), act(RenderTo("plain.txt"), 2)]),
         ("regex-cache", "tera-contrib regex_replace / matching caches: one pattern, literal replacement vs groups", vec![act(Render("rxmask.html"), 0), act(Render("rxswap.html"), 1)]),
+        ("seeded-random", "tera-contrib get_random / shuffle with a seed: same seed on both threads", vec![act(Render("rand.html"), 0), act(Render("rand.html"), 1)]),
         // three threads
         ("3-esc", "escape scratch buffer, three threads", vec![act(Render("esc.html"), 0), act(Render("esc.html"), 1), act(Render("esc.html"), 2)]),
         ("3-mixed", "capture + loop + escape", vec![act(Render("cap.html"), 0), act(Render("loop.html"), 1), act(Render("esc3.html"), 2)]),
